@@ -6,6 +6,7 @@ import (
 	"io"
 	"net"
 	"os"
+	"reflect"
 	"runtime"
 	"strings"
 	"sync"
@@ -723,6 +724,45 @@ func genC12(o *hx.Out, tier string) {
 			verdict = "GOROUTINE-LEAK-" + what + " " + l
 		}
 		o.Add("initialisation outcome agnostic: "+on.name, verdict, "expect", "ok", "odd-node "+on.name)
+	}
+	// ---- stream requests enabled and the same ArduPilot sender heard several times (and other senders
+	// after it) before Close: Close returns, nothing is left ----
+	{
+		cd := shipped("common")
+		cdrw := &dialect.ReadWriter{Dialect: cd}
+		cdrw.Initialize() //nolint:errcheck
+		p := scn.NewPipe("sr")
+		node := newNode([]*scn.Pipe{p}, func(c *gomavlib.NodeConf) { c.Dialect = cd; c.StreamRequestEnable = true })
+		col := scn.NewCollector(node, 0, false)
+		col.Wait(func() bool { return len(col.Channels()) > 0 })
+		hb := hx.RandMessage(hx.NewRand(121), cd.Messages[0], 0)
+		for _, m := range cd.Messages {
+			if m.GetID() == 0 {
+				hb = hx.RandMessage(hx.NewRand(121), m, 0)
+			}
+		}
+		reflect.ValueOf(hb).Elem().FieldByName("Autopilot").SetUint(3)
+		mrw := cdrw.GetMessage(0)
+		for i := 0; i < 6; i++ {
+			f := &frame.V2Frame{SequenceNumber: byte(i), SystemID: byte(1 + i/4), ComponentID: 1, Message: mrw.Write(hb, true)}
+			f.Checksum = f.GenerateChecksum(mrw.CRCExtra())
+			p.Feed(frameBytes(cdrw, f))
+		}
+		time.Sleep(200 * time.Millisecond)
+		verdict := "ok"
+		if !scn.CloseWithin(node, 8*time.Second) {
+			verdict = "CLOSE-DID-NOT-RETURN"
+		} else {
+			select {
+			case <-col.Done:
+			case <-time.After(3 * time.Second):
+				verdict = "EVENTS-NOT-CLOSED"
+			}
+		}
+		if l := scn.Leaks(); l != "" && verdict == "ok" {
+			verdict = "GOROUTINE-LEAK " + l
+		}
+		o.Add("close after repeated heartbeats of one ArduPilot sender", verdict, "expect", "ok", "close-after-stream-requests")
 	}
 	// ---- a Node value used for a second life: Initialize, Close, Initialize again (new transport),
 	// Close again: the second Close returns as the first did, and releases as much ----
